@@ -244,7 +244,7 @@ func buildReverseSearchers(
 
 	case UseReverseSuffix:
 		suffixLiterals := extractor.ExtractSuffixes(re)
-		searcher, err := NewReverseSuffixSearcher(nfaEngine, suffixLiterals, dfaConfig, hasDotStarPrefix(re))
+		searcher, err := NewReverseSuffixSearcher(nfaEngine, suffixLiterals, dfaConfig, hasDotStarPrefix(re) && isDotStarLiteral(re))
 		if err != nil {
 			result.finalStrategy = UseDFA
 		} else {
